@@ -213,6 +213,8 @@ def index_inv(R, exempt=None):
                     bad.append("path_slot_carries_id")
                 if st._oids[s].get(k) is not e:
                     bad.append("path_slot_has_id_slot")
+    if getattr(st, "_kids_moving", None):
+        bad.append("kids_moving_not_empty")
     cs = list(st._changeset_storage)
     for e in R.reg:
         for s in SIDES:
@@ -233,6 +235,21 @@ def index_inv(R, exempt=None):
     return sorted(set(bad))
 
 
+def op_guard(R, cfg, op):
+    """`OpGuard` of Props/C11.lean on the real state before the operation: `__setitem__` (directly, or through the merge-copy
+    branch of `update`) onto a side that is a folder with a path is covered only when that side's ids are not paths"""
+    def set_ok(ent, side):
+        sd = ent[side]
+        leaf = R.OTY_R.get(sd.__dict__.get("_otype"), "?") != "d" or sd._path is None
+        return leaf or not cfg[side]
+    if op[0] == "SI":
+        return set_ok(R.reg[op[1]], op[2])
+    if op[0] == "U" and op[7] is not None:
+        pe = R.state._oids[op[1]].get(op[7])
+        return pe is None or set_ok(pe, 1 - op[1])
+    return True
+
+
 def eval_sequence(R, cfg, ops, events_only=False):
     """replay `ops` on a fresh real state and evaluate the theorems' statement after the last operation
     (`step_inv`/`run_inv`; `forget_inv` + `forget_total` when the last operation is a forget_oid).  None = not applicable."""
@@ -246,6 +263,8 @@ def eval_sequence(R, cfg, ops, events_only=False):
             tgt = R.state._oids[op[1]].get(op[2])
             exempt = (tgt, op[1]) if tgt is not None else None
         try:
+            if not op_guard(R, cfg, op):
+                return None
             status, _ = R.apply(op)
         except Exception:  # a shrunk sequence may reference entries that no longer exist
             return None
@@ -330,9 +349,10 @@ def U(side, ot, oid, path, prior=None, ex="T", h=None):
 C0 = (False, False, True, True, 0, 0)
 # id -> (flavour, operations, what to look at after the last operation); used for `open:` and for `fixed:` entries alike
 RECIPES = {
-    "kids-mutual-recursion": (C0, [U(0, "d", "e", "/a"), U(0, "d", "f", "/a/b"), U(0, "d", "e", "/a/b/c")], "recursion"),
     "path-without-id": (C0, [U(0, "f", "i1", "/a"), ("O", 0, 0, None)], "path_without_id"),
     "pending-flag-without-id": (C0, [U(0, "f", "i1", "/a"), ("C", 0, 1, 5), ("O", 0, 0, None)], "pending_no_id"),
+    "setitem-folder-kid-takes-id": ((True, True, True, True, 0, 1),
+                                    [U(0, "d", "/a", "/a"), U(0, "f", "/a/x", "/a/x"), U(0, "d", "/b/x", "/b"), ("SI", 0, 0, 2, 0)], "dup_id"),
     # repaired by fix B (direct `_changed = 0` write)
     "changed-hook-mutual-recursion": (C0, [U(0, "f", "i1", "/a"), ("C", 0, 1, 1), ("O", 0, 0, None), ("C", 0, 0, None)], "recursion"),
     "pending-without-flag": (C0, [U(0, "f", "i1", "/a"), ("MK", 0, 1), ("C", 0, 0, None)], "pending_unflagged"),
@@ -342,6 +362,8 @@ RECIPES = {
     "forget-pathless-keyerror": (C0, [U(0, "f", "i1", None), ("FG", 0, "i1")], "keyerror"),
     # repaired by eec8a73 (loader no longer indexes absent sides under None)
     "reload-indexes-absent-side": (C0, [U(0, "f", "i1", "/a"), ("RL",), ("O", 0, 1, "r1")], "stale_none_slot"),
+    # repaired by fix C (`_kids_moving` stack in `_update_kids`)
+    "kids-mutual-recursion": (C0, [U(0, "d", "e", "/a"), U(0, "d", "f", "/a/b"), U(0, "d", "e", "/a/b/c")], "recursion"),
     # repaired by f72ed8c
     "update-kids-self-recursion": (C0, [U(0, "d", "o", "/a"), U(0, "d", "o", "/a/b")], "not_at_a_b"),
 }
@@ -370,6 +392,8 @@ def replay_finding(R, ident):
         return e in st._changeset_storage and not e[0]._changed and not e[1]._changed
     if kind == "pending_no_id":
         return e in st._changeset_storage and not any(e[s]._changed and e[s]._oid for s in SIDES)
+    if kind == "dup_id":
+        return e[0]._oid == "/b/x" and st._oids[0].get("/b/x") is not e and R.reg[1][0]._oid == "/b/x"
     if kind == "pending_forgotten":
         return e in st._changeset_storage and not any(e is x for s in SIDES for x in st._oids[s].values())
     if kind == "empty_bucket":
@@ -403,6 +427,8 @@ def oracle_search(R, seed, tier, opens):
             if op[0] == "FG":
                 tgt = R.state._oids[op[1]].get(op[2])
                 exempt = (tgt, op[1]) if tgt is not None else None
+            if not op_guard(R, cfg, op):
+                break
             status, _ = R.apply(op)
             if status == "Recursion":
                 break
